@@ -475,3 +475,6 @@ def replay(cs, env):
     for c, cr in env.execute([cs]):
         judge(res, c, cr)
     return res
+
+
+RULE = RULE + ' The first RefsManager stays alive while terms are edited, erased and re-created in the context object and then resolves again (resolve3), followed by a fresh manager (resolve2).'
